@@ -255,11 +255,40 @@ def run(ctx):
         for e in evs:
             if e.kind == 'branch' and e.atom in (own_atom, own_atom2):
                 owns = e.pol
-        if owns is None:
+        after = evs[evs.index(regs[0]):] if regs else evs
+        if owns is None and fins and not any(e.kind == 'branch' and not (e.fn is None) and 'owner' in repr(e.atom) for e in after):
+            ctx.violation('R6', 'wait_for finishes at once iff the issuer owns the mutex', where(wf, fins[0].line), 'finish() with no test at all: a waiter that does not own the mutex is answered at once',
+                          key='R6|wait_for|finish iff owner')
+        elif owns is None:
             ctx.unrecognised('R6', 'wait_for: ownership test not recognised on a path')
         else:
             ctx.check((len(fins) == 1) == owns, 'R6', 'wait_for finishes at once iff the issuer owns the mutex (owns=%s)' % owns, where(wf), '%d finish() call(s)' % len(fins),
                       key='R6|wait_for|finish iff owner')
+
+    # test(): the acquisition is over exactly when its issuer owns the mutex
+    tf = P.fn(ACQ + '::test')
+    vt = A.view(tf)
+    rets = [e for p in vt.paths() if p.exit not in ('noreturn', 'cut') for e in vt.path_events(p) if e.kind == 'return' and e.val is not None]
+    okt = bool(rets) and all(ex.atom(e.val)[0] in (own_atom, own_atom2) and ex.atom(e.val)[1] for e in rets)
+    ctx.check(okt, 'R6', 'MutexAcquisitionImpl::test returns whether the issuer owns the mutex', where(tf), 'returns %s' % [ex.pretty(e.val) for e in rets], key='R6|test|owner')
+    # a recursive waiter that asks again gets its queued acquisition back, not a second queue entry
+    la = P.fn(M + '::lock_async')
+    vl = A.view(la)
+    nm = 0
+    for p in vl.paths():
+        if p.exit in ('noreturn', 'cut'):
+            continue
+        evs = vl.path_events(p)
+        same = [(i, e) for i, e in enumerate(evs) if e.kind == 'branch' and e.pol and e.atom[0] == 'bin' and e.atom[1] == '==' and any(t[0] == 'call' and t[1].endswith('::get_issuer') for t in (e.atom[2], e.atom[3]))
+                and lib.parm_i(la, 0) in (e.atom[2], e.atom[3])]
+        if not same:
+            continue
+        nm += 1
+        i0 = same[0][0]
+        pushes = [e for e in evs[i0:] if e.kind == 'call' and e.q.endswith(('::push_back', '::emplace_back'))]
+        ctx.check(not pushes and p.exit == 'return', 'R6', 'lock_async (recursive): an issuer already queued gets its queued acquisition back', where(la, same[0][1].line),
+                  'after the match: %d enqueue(s), exit %s' % (len(pushes), p.exit), key='R6|lock_async|queued issuer not duplicated')
+    ctx.require(nm >= 1, 'R6', 'lock_async: the scan for an acquisition of the same issuer was not recognised')
 
     # ---- R7 MC / non-MC branches of Mutex::lock ---------------------------------------------------------------------------
     ctx.rule('R7', 'both branches of s4u::Mutex::lock perform lock_async(issuer) then wait_for(issuer, -1)', 2)
